@@ -12,11 +12,14 @@ fn main() {
         "C08" => simx::c08::run_check(&args),
         "C09" if args.part.as_deref() == Some("utils") || args.extra.iter().any(|x| x == "--utils") => simx::c09t::run_check(&args),
         "C09" => simx::c09::run_check(&args),
+        "C10" => simx::c10::run_check(&args),
         "C12" => simx::c12::run_check(&args),
         "C13" => simx::c13::run_check(&args),
         "C16" => simx::c16::run_check(&args),
         "C17" => simx::c17::run_check(&args),
         "C18" => simx::c18::run_check(&args),
+        "C19" => simx::c19::run_check(&args),
+        "C20" => simx::c20::run_check(&args),
         p => vx::machinery(&format!("simx does not serve {p}")),
     };
     std::process::exit(code)
